@@ -487,15 +487,27 @@ class World:
         return v
 
     def out_expr(self, body, k):
-        """value of the pointee of &mut parameter k (0-based arg index) at return"""
+        """value of the pointee of &mut parameter k (0-based arg index) where the function
+        returns successfully (points at which _0 is assigned something other than an Err)"""
         key = (id(body), k)
         if key in self._out:
             return self._out[key]
         self._out[key] = E("rec", (), ("out", body.path, k))
         be = self.be(body)
         vals = []
-        for r in be.cfg.exits():
-            vals.append(be.ev_lp(r, len(body.blocks[r].stmts), k + 1, ()))
+        sites = []
+        for d in be.defs_by_local.get(0, []):
+            if d.path or d.bb < 0:
+                continue
+            v = be.def_value(d)
+            alts = v.args if v.op == "phi" else (v,)
+            if all((a.op == "adt" and a.info[1] == "Err") or (a.op == "call" and a.info.endswith("FromResidual::from_residual")) for a in alts):
+                continue
+            sites.append((d.bb, d.idx))
+        if not sites:
+            sites = [(r, len(body.blocks[r].stmts)) for r in be.cfg.exits()]
+        for (bb, idx) in sites:
+            vals.append(be.ev_lp(bb, idx, k + 1, ()))
         v = mk_phi(vals) if vals else E("diverges")
         self._out[key] = v
         return v
